@@ -93,7 +93,7 @@ Lemma fs_step_tailer s o :
 Proof.
   destruct o; cbn [Paths.fs_step]; repeat match goal with
   | |- context [if ?c then _ else _] => destruct c
-  | |- context [match tree s ?p with _ => _ end] => destruct (tree s p) as [[? ?|?]|]
+  | |- context [match tree s ?p with _ => _ end] => destruct (tree s p) as [[? ?|? ?]|]
   end; cbn; auto.
 Qed.
 
@@ -109,15 +109,18 @@ Proof.
   - destruct (in_U U p && negb (is_some (tree s p))) eqn:E; [|exact W].
     apply andb_true_iff in E as [E _]. intros q. cbn. unfold upd.
     destruct (N.eqb q p) eqn:Q; [apply N.eqb_eq in Q; subst; intros _; apply in_U_In; exact E|apply W].
+  - destruct (in_U U p && negb (is_some (tree s p))) eqn:E; [|exact W].
+    apply andb_true_iff in E as [E _]. intros q. cbn. unfold upd.
+    destruct (N.eqb q p) eqn:Q; [apply N.eqb_eq in Q; subst; intros _; apply in_U_In; exact E|apply W].
   - intros q. cbn. unfold upd. destruct (N.eqb q p); [congruence|apply W].
   - destruct (rename_ok U s p q) eqn:E; [|exact W].
     unfold rename_ok in E. apply andb_true_iff in E as [E _]. apply andb_true_iff in E as [_ E].
     intros x. cbn. unfold upd. destruct (N.eqb x p); [congruence|].
     destruct (N.eqb x q) eqn:Q; [apply N.eqb_eq in Q; subst; intros _; apply in_U_In; exact E|apply W].
-  - destruct (tree s p) as [[? ?|?]|] eqn:T; try exact W.
+  - destruct (tree s p) as [[? ?|? ?]|] eqn:T; try exact W.
     intros q. cbn. unfold upd. destruct (N.eqb q p) eqn:Q; [|apply W].
     apply N.eqb_eq in Q; subst. intros _. apply W. congruence.
-  - destruct (tree s p) as [[? ?|?]|] eqn:T; exact W.
+  - destruct (tree s p) as [[? ?|? ?]|] eqn:T; exact W.
 Qed.
 
 Lemma fs_step_inv s o : Inv s -> Inv (fs_step s o).
@@ -131,7 +134,7 @@ Qed.
 Lemma tail_path_tree c s p : tree (tail_path c s p) = tree s /\ len (tail_path c s p) = len s.
 Proof.
   unfold tail_path. destruct (c && is_some (reg s p)); [auto|].
-  destruct (tree s p) as [[[] ?|?]|]; cbn; auto.
+  destruct (tree s p) as [[[] ?|? ?]|]; cbn; auto.
 Qed.
 
 Lemma tail_path_inv s p :
@@ -140,7 +143,7 @@ Lemma tail_path_inv s p :
 Proof.
   intros [I1 I2 I3 I4 I5 I6] HU Hig Hpat. unfold tail_path. cbn [andb].
   destruct (reg s p) as [sid|] eqn:R; cbn [is_some]; [constructor; auto|].
-  destruct (tree s p) as [[[] i|?]|] eqn:T; try (constructor; auto; fail).
+  destruct (tree s p) as [[[] i|? ?]|] eqn:T; try (constructor; auto; fail).
   assert (Hfresh : ~ In p (map s_path (streams s))).
   { intros Hin. apply in_map_iff in Hin as [st [Hp Hin]]. apply I2 in Hin. rewrite Hp in Hin. congruence. }
   constructor; cbn.
@@ -163,7 +166,7 @@ Lemma tail_path_reg_mono s p q :
   is_some (reg s q) = true -> is_some (reg (tail_path true s p) q) = true.
 Proof.
   intros H. unfold tail_path. cbn [andb]. destruct (is_some (reg s p)) eqn:R; [exact H|].
-  destruct (tree s p) as [[[] ?|?]|]; try exact H. cbn. unfold upd. destruct (N.eqb q p); [reflexivity|exact H].
+  destruct (tree s p) as [[[] ?|? ?]|]; try exact H. cbn. unfold upd. destruct (N.eqb q p); [reflexivity|exact H].
 Qed.
 
 Lemma tail_path_registers s p i :
@@ -180,7 +183,7 @@ Lemma tail_path_new c s p st :
   In st (streams s) \/ tree s (s_path st) = Some (File true (s_ino st)).
 Proof.
   unfold tail_path. destruct (c && is_some (reg s p)); [auto|].
-  destruct (tree s p) as [[[] i|?]|] eqn:T; auto. cbn. intros Hin.
+  destruct (tree s p) as [[[] i|? ?]|] eqn:T; auto. cbn. intros Hin.
   apply in_app_or in Hin as [Hin|[<-|[]]]; [auto|]. right. cbn. exact T.
 Qed.
 
@@ -201,8 +204,8 @@ Proof.
   destruct (is_some (tree s p) && glob_match pat p && negb (ignored s p)) eqn:E; [|exact I].
   apply andb_true_iff in E as [E Hig]. apply andb_true_iff in E as [_ Hg].
   apply tail_path_inv; auto.
-  - unfold Paths.ignored in Hig. destruct (tree s p) as [[? ?|?]|]; cbn in Hig; try discriminate.
-    destruct (ignore_match p); [discriminate|reflexivity].
+  - unfold Paths.ignored in Hig. destruct (tree s p) as [[? ?|[] ?]|]; cbn in Hig; try discriminate;
+      (destruct (ignore_match p); [discriminate|reflexivity]).
   - exists pat. auto.
 Qed.
 
@@ -304,7 +307,7 @@ Lemma round_cases s st :
                exists r, tree s (s_path st) = Some (File r (s_ino st'))) \/
   fst (round true s st) = Close.
 Proof.
-  unfold round. destruct (tree s (s_path st)) as [[r j|?]|] eqn:T; cbn; auto.
+  unfold round. destruct (tree s (s_path st)) as [[r j|? ?]|] eqn:T; cbn; auto.
   destruct (N.eqb j (s_ino st)) eqn:E.
   - apply N.eqb_eq in E. subst. left. eexists. split; [reflexivity|]. cbn. eauto.
   - destruct r; cbn; auto. left. eexists. split; [reflexivity|]. cbn. eauto.
@@ -492,7 +495,7 @@ Proof.
   unfold round. set (got := recs _ _ _ _ _).
   assert (G : In f got -> f_path f = s_path st /\ f_sid f = s_id st).
   { intros H. apply recs_in in H as [A [B _]]. auto. }
-  destruct (tree s (s_path st)) as [[rd j|?]|]; cbn; auto.
+  destruct (tree s (s_path st)) as [[rd j|? ?]|]; cbn; auto.
   destruct (N.eqb j (s_ino st)); cbn; auto. destruct rd; cbn; [|destruct r; auto].
   intros H. apply in_app_or in H as [H|H]; [auto|]. apply recs_in in H as [A [B _]]. auto.
 Qed.
@@ -501,7 +504,7 @@ Lemma round_nodup r s st : NoDup (map key (snd (round r s st))).
 Proof.
   unfold round. set (got := recs _ _ _ _ _).
   assert (G : NoDup (map key got)) by apply recs_nodup.
-  destruct (tree s (s_path st)) as [[rd j|?]|]; cbn; auto.
+  destruct (tree s (s_path st)) as [[rd j|? ?]|]; cbn; auto.
   destruct (N.eqb j (s_ino st)) eqn:E; cbn; auto. destruct rd; cbn; [|destruct r; auto].
   rewrite map_app. apply NoDup_app_intro; [exact G|apply recs_nodup|].
   intros k H1 H2. apply in_map_iff in H1 as [f1 [K1 H1]]. apply in_map_iff in H2 as [f2 [K2 H2]].
